@@ -13,9 +13,17 @@
    Under that hypothesis alone the result is  A(i,j) = weight(coord i - coord j), i.e. the TRANSPOSE of the
    matrix "entry (i,j) = weight of coord j - coord i"; the two coincide when the VALUES are centrally symmetric
    (`value_symmetric`), which is the case of the property statement ("all symmetric stencils").  Without
-   pattern symmetry the result is neither (C19_stencil_nonsymmetric_pattern_refuted). *)
+   pattern symmetry the result is neither (C19_stencil_nonsymmetric_pattern_refuted).
+
+   File formats (names end in _partial).  The theorems are about the token-level model of Gallery/MMFormat.v:
+   a coordinate file is its banner flag, size line and 1-based triples; a PETSc file is its header and three
+   arrays.  NOT covered (the partial part): libc fprintf/fscanf/fread and byte order (`show`, `parse` abstract:
+   a value v comes back as parse (show v)), and ParMatrix::finalize / to_ParCSR after the distributed readers
+   (sort, summing of duplicates, column renumbering: C07/C18) - a distributed result is the operator represented
+   by the entries each process hands to on_proc / off_proc.  Those parts are tied by the correspondence runs. *)
 From Coq Require Import ZArith.
-From Raptor Require Import Base.Sums Sparse.Defs Gallery.Stencil Gallery.StencilProofs Gallery.StencilThm.
+From Raptor Require Import Base.Sums Sparse.Defs Gallery.Stencil Gallery.StencilProofs Gallery.StencilThm
+  Gallery.MMFormat Gallery.MMProofs.
 
 Section C19.
 Variable F : Type.
@@ -79,6 +87,59 @@ Theorem C19_par_stencil_equals_sequential (st : list F) (grid : list nat) (block
   par_stencil_gathered F zero big st grid blocks = sgrid st grid.
 Proof. intros Hg Hb. apply par_stencil_gathered_eq; assumption. Qed.
 
+(* the library's own stencil makers produce centrally symmetric stencils of the right length, so
+   C19_stencil_entry_symmetric applies to them *)
+Theorem C19_makers_symmetric (of_nat : nat -> F) (sixth : F -> F) (eps C S : F) :
+  (value_symmetric F zero (diffusion_stencil_2d F one add mul sub opp of_nat sixth eps C S) 2 /\
+   length (diffusion_stencil_2d F one add mul sub opp of_nat sixth eps C S) = 3 ^ 2) /\
+  (value_symmetric F zero (laplace_stencil_27pt F one opp of_nat) 3 /\
+   length (laplace_stencil_27pt F one opp of_nat) = 3 ^ 3).
+Proof.
+  split; [exact (diffusion_stencil_symmetric F zero one add mul sub opp of_nat sixth eps C S)
+        |exact (laplace27_symmetric F zero one add mul sub opp of_nat sixth)].
+Qed.
+
+(* ---------------- file formats ---------------- *)
+Variables show parse : F -> F.
+Notation denCoo := (den_coo F zero add).
+
+(* write_mm then read_mm: same dimensions, and every stored value v comes back as parse (show v), entries whose
+   read value is below zero_tol being dropped (explicit zeros) *)
+Theorem C19_mm_round_trip_partial (A : csr F) : csr_wf A ->
+  exists B, read_mm F big parse (write_mm F show A) = Some B /\
+            csr_nr B = csr_nr A /\ csr_nc B = csr_nc A /\
+            forall i j, denCsr B i j = denCsr (csr_mapv F (fun v => dropW (rt F show parse v)) A) i j.
+Proof. apply (read_write_mm F zero one add mul sub opp Fth). Qed.
+
+(* write_par_mm (any number of processes, any row blocks) then read_mm: the global operator of the distributed
+   matrix, values through parse . show *)
+Theorem C19_mm_par_write_round_trip_partial (nr nc : nat)
+        (ranks : list (nat * list (list (nat * F)) * list (list (nat * F)))) :
+  exists A, read_mm_coo F big parse (write_par_mm F show nr nc ranks) = Some A /\
+            coo_nr A = nr /\ coo_nc A = nc /\
+            forall i j, denCoo A i j = par_den F zero add ranks (fun v => dropW (rt F show parse v)) i j.
+Proof. apply (read_write_par_mm F zero one add mul sub opp Fth). Qed.
+
+(* both Matrix Market readers honour the banner, and the distributed reader assembles the same global matrix as
+   the sequential one for every process count and every partition whose row blocks tile the rows (general
+   banner: any column blocks; symmetric banner: square matrix, column blocks = row blocks, as the default
+   partition gives).  mm_expand = the triples as listed, off-diagonal ones mirrored when the banner is symmetric *)
+Theorem C19_mm_readers_agree_partial (f : mmfile F) (parts : list (nat * nat * nat * nat)) :
+  mm_wf F f -> rows_tile parts (mm_nr f) ->
+  (mm_sym f = true -> mm_nc f = mm_nr f /\ square_parts parts) ->
+  length (mm_ents f) >= mm_nz f ->
+  exists B, read_mm F big parse f = Some B /\ csr_nr B = mm_nr f /\ csr_nc B = mm_nc f /\
+    forall i j, denCoo (read_par_mm F big parse f parts) i j = denCsr B i j /\
+                denCsr B i j = den_ents F zero add (mm_expand F big parse f) i j.
+Proof. apply (read_par_mm_eq_read_mm_csr F zero one add mul sub opp Fth). Qed.
+
+(* PETSc binary: the distributed reader returns, block by block, exactly the rows of the sequential reader, for
+   every process count and every contiguous row partition (empty blocks included) *)
+Theorem C19_petsc_readers_agree_partial (f : petsc F) (blocks : list nat) :
+  petsc_wf F f -> nsum blocks = p_nr f ->
+  readParMatrix_gathered F f (windows 0 blocks) = Some (readMatrix F f).
+Proof. apply readParMatrix_eq_readMatrix. Qed.
+
 End C19.
 
 (* ---- instances: hypotheses are satisfiable, results non-trivial; the statement without pattern symmetry is false ---- *)
@@ -129,6 +190,42 @@ Example C19_par_stencil_nonvacuous :
   den_csr Z 0%Z Z.add (stencil_grid Z 0%Z Zbig [1;1;1;1;1;1;1;1;1]%Z [4; 1]) 1 2 = 1%Z.
 Proof. split; [repeat constructor|]. repeat split; vm_compute; reflexivity. Qed.
 
+(* a symmetric-banner file on three processes (one without rows): hypotheses hold, the mirrored entry appears once,
+   the diagonal once *)
+Definition zid (x : Z) : Z := x.
+Definition sym_file : mmfile Z := mkMM true 2 2 2 [(1, 1, 3%Z); (2, 1, 5%Z)].
+Definition sym_parts : list (nat * nat * nat * nat) := [(0, 1, 0, 1); (1, 1, 1, 1); (2, 0, 2, 0)].
+Example C19_mm_readers_agree_nonvacuous :
+  mm_wf Z sym_file /\ rows_tile sym_parts (mm_nr sym_file) /\
+  (mm_sym sym_file = true -> mm_nc sym_file = mm_nr sym_file /\ square_parts sym_parts) /\
+  length (mm_ents sym_file) >= mm_nz sym_file /\
+  den_coo Z 0%Z Z.add (read_par_mm Z Zbig zid sym_file sym_parts) 0 1 = 5%Z /\
+  den_coo Z 0%Z Z.add (read_par_mm Z Zbig zid sym_file sym_parts) 0 0 = 3%Z.
+Proof.
+  split.
+  { intros e He. simpl in He. destruct He as [<-|[<-|[]]]; simpl; lia. }
+  split; [exists [1; 1; 0]; split; reflexivity|].
+  split.
+  { intros _. split; [reflexivity|]. intros w Hw. simpl in Hw. destruct Hw as [<-|[<-|[<-|[]]]]; reflexivity. }
+  split; [simpl; lia|]. split; vm_compute; reflexivity.
+Qed.
+
+Example C19_mm_round_trip_nonvacuous :
+  csr_wf (mkCsr 2 3 [[(2, 7%Z); (0, (-1)%Z)]; []]) /\
+  read_mm Z Zbig zid (write_mm Z zid (mkCsr 2 3 [[(2, 7%Z); (0, (-1)%Z)]; []])) =
+  Some (mkCsr 2 3 [[(2, 7%Z); (0, (-1)%Z)]; []]).
+Proof.
+  split; [|vm_compute; reflexivity].
+  split; [reflexivity|]. intros r Hr p Hp. simpl in Hr. destruct Hr as [<-|[<-|[]]]; simpl in Hp; [|contradiction].
+  destruct Hp as [<-|[<-|[]]]; simpl; lia.
+Qed.
+
+Example C19_petsc_readers_agree_nonvacuous :
+  petsc_wf Z (mkPetsc 3 4 3 [2; 0; 1] [0; 3; 1] [5; 6; 7]%Z) /\ nsum [1; 0; 2] = 3 /\
+  readParMatrix_gathered Z (mkPetsc 3 4 3 [2; 0; 1] [0; 3; 1] [5; 6; 7]%Z) (windows 0 [1; 0; 2]) =
+  Some (mkCsr 3 4 [[(0, 5%Z); (3, 6%Z)]; []; [(1, 7%Z)]]).
+Proof. split; [repeat split|]. split; [reflexivity|vm_compute; reflexivity]. Qed.
+
 Print Assumptions C19_stencil_shape.
 Print Assumptions C19_stencil_writes_in_range.
 Print Assumptions C19_stencil_entry.
@@ -136,3 +233,8 @@ Print Assumptions C19_stencil_entry_symmetric.
 Print Assumptions C19_stencil_transpose.
 Print Assumptions C19_par_stencil_rank_rows.
 Print Assumptions C19_par_stencil_equals_sequential.
+Print Assumptions C19_makers_symmetric.
+Print Assumptions C19_mm_round_trip_partial.
+Print Assumptions C19_mm_par_write_round_trip_partial.
+Print Assumptions C19_mm_readers_agree_partial.
+Print Assumptions C19_petsc_readers_agree_partial.
